@@ -84,6 +84,16 @@ impl Check for C04 {
                     if c.proto.iter().any(|r| r.name == "colorRed") && s.chance(1, 2) {
                         c.meta.color_limits = Some([(); 6].map(|_| Some(gen::limit_val(s))));
                     }
+                    // explicit clearing through the API: set_*_limits(None)
+                    if s.chance(1, 5) {
+                        c.clear_limits = 1 + s.below(3) as u8;
+                        if c.clear_limits & 1 != 0 {
+                            c.meta.intensity_limits = None;
+                        }
+                        if c.clear_limits & 2 != 0 {
+                            c.meta.color_limits = None;
+                        }
+                    }
                 }
                 _ => {}
             }
@@ -118,7 +128,11 @@ impl Check for C04 {
             Ok(Ok(x)) => x,
         };
         let mut exp = prog::expected_scene(p);
-        prog::mask_derived(&mut got, &mut exp);
+        let cleared: Vec<u8> = p.ops.iter().filter_map(|o| if let Op::Cloud(c) = o { if c.finalize { Some(c.clear_limits) } else { None } } else { None }).collect();
+        if cleared.iter().any(|b| *b != 0) {
+            v.nt("limits_cleared_explicitly");
+        }
+        prog::mask_derived_with(&mut got, &mut exp, &cleared);
         if let Some(d) = diff_scene(&exp, &got, "written", "read") {
             v.fail(d);
             return v;
